@@ -6,6 +6,7 @@ mod cmdcases;
 mod conncases;
 mod framecases;
 mod loopcases;
+mod songcases;
 
 use std::io::{BufRead, Write};
 
@@ -40,6 +41,7 @@ fn dispatch(toks: &[&str]) -> String {
         "recv" | "conn" => conncases::run(toks),
         "frame" | "resp" => framecases::run(toks),
         "loop" => loopcases::run(toks),
+        "songs" | "songs_nc" => songcases::run(toks),
         other => format!("unknown-kind {}", other),
     }
 }
